@@ -124,6 +124,46 @@ example : provedA ⟨.struct (.cons 0 (.prim 2) true (.cons 1 (.utf8 false) true
      ⟨.utf8 false, 2, 0, none, [[1, 0, 0, 0, 2, 0, 0, 0, 3, 0, 0, 0], [0x61, 0x62, 0x63]], []⟩]⟩ = true := by
   decide
 
+/-- **Projection skip accounting** (`RecordBatchDecoder::skip_field` vs `write_array_data`): for
+every type of the physical grammar (nested, dictionary, union dense/sparse, run-end …) and metadata
+version `v`, a column with the shape the writer emits under `v` (validity buffer iff
+`has_validity_bitmap(type, v)`, buffers per layout, children recursively) occupies exactly
+`skipCount t v` field nodes and buffers — so skipping an unprojected column leaves the reader
+positioned on the next column.  Uses the *regenerated* shapes of `has_validity_bitmap` and of the
+Union arm of `skip_field` (version split 5 in both): if either changes, this theorem no longer
+checks.  Run-end types below the split are excluded — there the writer emits a validity buffer the
+readers never consume (known finding `ree-v4`, witnessed below). -/
+theorem skip_field_accounting (v : Nat) (t : DType) (x : ArrayData) (h : shapeOk v t x = true)
+    (hr : v < SKIP_UNION_VALIDITY_BELOW → noRee t = true) :
+    (flatten x).1.length = (skipCount t v).1 ∧ (flatten x).2.length = (skipCount t v).2 :=
+  flatten_count SKIP_UNION_VALIDITY_BELOW v (by decide) t x h hr
+
+/-- the same for a column that *is* read (`create_array`), hence projected and full reads
+consume the same positions -/
+theorem create_array_accounting (v : Nat) (t : DType) (x : ArrayData) (h : shapeOk v t x = true)
+    (hr : v < READ_UNION_VALIDITY_BELOW → noRee t = true) :
+    (flatten x).1.length = (readCount t v).1 ∧ (flatten x).2.length = (readCount t v).2 :=
+  flatten_count READ_UNION_VALIDITY_BELOW v (by decide) t x h hr
+
+/-- non-vacuity: a sparse union column written under V4 (validity buffer + type ids, one Int32
+child) has the writer's shape, and is skipped as 2 nodes / 4 buffers -/
+example : shapeOk 4 (.union false (.cons 0 (.prim 4) true .nil))
+    ⟨.union false (.cons 0 (.prim 4) true .nil), 1, 0, some ⟨[1], 0, 1, 0⟩, [[0]],
+      [⟨.prim 4, 1, 0, some ⟨[1], 0, 1, 0⟩, [[7, 0, 0, 0]], []⟩]⟩ = true ∧
+    skipCount (.union false (.cons 0 (.prim 4) true .nil)) 4 = (2, 4) := by decide
+
+/-- the excluded case is a real mismatch: a run-end column written under V4 carries a validity
+buffer (`has_validity_bitmap` is true below V5) that neither `skip_field` nor `create_array`
+consumes -/
+example : shapeOk 4 (.ree 4 (.prim 4))
+    ⟨.ree 4 (.prim 4), 1, 0, some ⟨[1], 0, 1, 0⟩, [],
+      [⟨.prim 4, 1, 0, some ⟨[1], 0, 1, 0⟩, [[1, 0, 0, 0]], []⟩,
+       ⟨.prim 4, 1, 0, some ⟨[1], 0, 1, 0⟩, [[7, 0, 0, 0]], []⟩]⟩ = true ∧
+    (flatten ⟨.ree 4 (.prim 4), 1, 0, some ⟨[1], 0, 1, 0⟩, [],
+      [⟨.prim 4, 1, 0, some ⟨[1], 0, 1, 0⟩, [[1, 0, 0, 0]], []⟩,
+       ⟨.prim 4, 1, 0, some ⟨[1], 0, 1, 0⟩, [[7, 0, 0, 0]], []⟩]⟩).2.length = 5 ∧
+    (skipCount (.ree 4 (.prim 4)) 4).2 = 4 := by decide
+
 end WholeArray
 
 /-! ## (b) framing and body layout -/
